@@ -50,6 +50,13 @@ func rewriteSignatures(clusterID string, expectHash string,
 	mw := io.MultiWriter(hasher, updatedManifest)
 	sz := 0
 
+	// The scanner below would silently drop a CR before a
+	// newline, and supply a missing final newline, before the
+	// text is hashed and relayed.
+	if strings.Contains(col.ManifestText, "\r") || (col.ManifestText != "" && !strings.HasSuffix(col.ManifestText, "\n")) {
+		return nil, fmt.Errorf("Invalid manifest: carriage return in manifest text, or no newline at end")
+	}
+
 	scanner := bufio.NewScanner(strings.NewReader(col.ManifestText))
 	scanner.Buffer(make([]byte, 1048576), len(col.ManifestText))
 	for scanner.Scan() {
